@@ -369,7 +369,9 @@ func formatYear(t time.Time, marker *variableMarker) (string, error) {
 	}
 
 	y := t.Year()
-	if size > 0 {
+	if size > 0 && size <= 18 {
+		// Widths above 18 digits hold any year (and 10^size
+		// no longer fits an int).
 		y = y % pow10(size)
 	}
 
